@@ -505,9 +505,24 @@ func (ev *Evaluator) instr(env map[ssa.Value]Val, in ssa.Value) (Val, error) {
 		if r, ok := convertInt(x, in.X.Type(), in.Type()); ok {
 			return r, nil
 		}
-		return x, nil // value-preserving for our symbolic purposes (noted)
+		if (isFloat(in.Type()) || isFloat(in.X.Type())) && !isConstVal(x) {
+			return Term{Fn: "conv[" + types.TypeString(in.Type(), nil) + "]", Args: []Val{x}}, nil
+		}
+		return x, nil // string/[]byte/named-type conversions: value-preserving for our symbolic purposes
 	case *ssa.MultiConvert:
-		return ev.val(env, in.X)
+		x, err := ev.val(env, in.X)
+		if err != nil {
+			return nil, err
+		}
+		// byte-sequence type parameters (string <-> []byte): content and length preserving, passed through;
+		// numeric type parameters: the conversion may round or truncate, kept as an uninterpreted operator
+		if isNumericish(in.Type()) || isNumericish(in.X.Type()) {
+			if _, isConst := x.(Const); isConst {
+				return x, nil // constants are converted exactly or the program would not compile
+			}
+			return Term{Fn: "conv[" + types.TypeString(in.Type(), nil) + "]", Args: []Val{x}}, nil
+		}
+		return x, nil
 	case *ssa.TypeAssert:
 		x, err := ev.val(env, in.X)
 		if err != nil {
@@ -608,6 +623,19 @@ func (ev *Evaluator) instr(env map[ssa.Value]Val, in ssa.Value) (Val, error) {
 		return ev.call(env, in)
 	case *ssa.MakeSlice:
 		return Sym{"make"}, nil
+	case *ssa.Lookup:
+		x, err := ev.val(env, in.X)
+		if err != nil {
+			return nil, err
+		}
+		k, err := ev.val(env, in.Index)
+		if err != nil {
+			return nil, err
+		}
+		if in.CommaOk {
+			return Tuple{Term{Fn: "lookup#0", Args: []Val{x, k}}, Term{Fn: "lookup#1", Args: []Val{x, k}}}, nil
+		}
+		return Term{Fn: "lookup", Args: []Val{x, k}}, nil
 	}
 	return nil, &Undecided{in.Pos(), fmt.Sprintf("unsupported value %T", in)}
 }
@@ -771,4 +799,42 @@ func pkgPath(fn *ssa.Function) string {
 		return o.Pkg.Pkg.Path()
 	}
 	return ""
+}
+
+func isConstVal(v Val) bool { _, ok := v.(Const); return ok }
+
+func isFloat(t types.Type) bool {
+	b, ok := t.Underlying().(*types.Basic)
+	return ok && b.Info()&types.IsFloat != 0
+}
+
+// isNumericish: a type parameter whose type set contains numeric types.
+func isNumericish(t types.Type) bool {
+	tp, ok := t.(*types.TypeParam)
+	if !ok {
+		return false
+	}
+	found := false
+	var walk func(t types.Type, d int)
+	walk = func(t types.Type, d int) {
+		if d > 5 || found {
+			return
+		}
+		switch u := t.Underlying().(type) {
+		case *types.Interface:
+			for i := 0; i < u.NumEmbeddeds(); i++ {
+				walk(u.EmbeddedType(i), d+1)
+			}
+		case *types.Union:
+			for i := 0; i < u.Len(); i++ {
+				walk(u.Term(i).Type(), d+1)
+			}
+		case *types.Basic:
+			if u.Info()&types.IsNumeric != 0 {
+				found = true
+			}
+		}
+	}
+	walk(tp.Constraint(), 0)
+	return found
 }
